@@ -258,6 +258,11 @@ func (g *genCtx) genCtor(s int) *Func {
 		var r Result
 		for try := 0; try < 6; try++ {
 			t := g.r.Range(minT, ft.NT-1)
+			if ft.As && g.r.P(0.12) {
+				// declared with an interface type directly (no As): the same
+				// keys an As registration elsewhere may claim
+				t = TIface + g.r.Intn(NumI)
+			}
 			r = Result{Kind: RSingle, T: t, Name: g.name()}
 			if len(ft.Groups) > 0 && g.r.P(0.25) {
 				r = Result{Kind: RGroup, T: t, Group: g.group()}
@@ -285,7 +290,7 @@ func (g *genCtx) genCtor(s int) *Func {
 		// positional, name via option
 		f.OptName = res[0].Name
 		f.Results = []Result{{Kind: RSingle, T: res[0].T}}
-		if ft.As && g.r.P(0.25) {
+		if ft.As && !IsIface(res[0].T) && g.r.P(0.25) {
 			for j := 0; j < NumI; j++ {
 				if Implements(res[0].T, j) && g.r.P(0.6) {
 					f.OptAs = append(f.OptAs, j)
@@ -296,7 +301,7 @@ func (g *genCtx) genCtor(s int) *Func {
 		f.OptGroup = res[0].Group
 		f.OptFlatten = res[0].Flatten
 		f.Results = []Result{{Kind: RSingle, T: res[0].T}}
-		if ft.As && !f.OptFlatten && g.r.P(0.2) {
+		if ft.As && !f.OptFlatten && !IsIface(res[0].T) && g.r.P(0.2) {
 			for j := 0; j < NumI; j++ {
 				if Implements(res[0].T, j) && g.r.P(0.6) {
 					f.OptAs = append(f.OptAs, j)
@@ -361,6 +366,14 @@ func (g *genCtx) genDecorator(s int) *Func {
 	f := g.newFunc(RoleDec)
 	groups := g.ft.GroupDecs && len(g.ft.Groups) > 0
 	av := g.availableKeys(s, g.ft.NT, groups)
+	if g.ft.As {
+		// keys of interface type (As registrations, results declared as interfaces)
+		for _, k := range g.availableIfaceKeys(s) {
+			if !k.IsGroup() || groups {
+				av = append(av, k)
+			}
+		}
+	}
 	n := 1
 	if g.r.P(0.3) {
 		n = 2
@@ -376,7 +389,7 @@ func (g *genCtx) genDecorator(s int) *Func {
 		} else {
 			continue
 		}
-		if IsIface(k.T) || (seen[k] && !g.r.P(g.ft.PDup)) {
+		if seen[k] && !g.r.P(g.ft.PDup) {
 			// (the same key twice in one decorator: must be rejected as a whole)
 			continue
 		}
@@ -399,6 +412,9 @@ func (g *genCtx) genDecorator(s int) *Func {
 	for _, k := range keys {
 		if k.T < minT {
 			minT = k.T
+		}
+		if IsIface(k.T) {
+			minT = 0 // no auxiliary parameters: an interface key has no rank
 		}
 		if g.r.P(0.85) {
 			pkeys = append(pkeys, k)
